@@ -208,6 +208,12 @@ MISUSES = [
                            "@icontract.ensure(lambda result: True)"], "ValueError"),
     ("dup-default-and-custom-name", ["@icontract.snapshot(lambda ARG: 1)", "@icontract.snapshot(lambda: 2, name='ARG')",
                                      "@icontract.ensure(lambda result: True)"], "ValueError"),
+    # (one decorator OBJECT applied twice to one function is the same name given twice; on different functions it is fine, and every
+    # definition attempt of this matrix shares these two objects)
+    ("dup-same-object-twice", ["@SHARED_SNAP_ARG", "@SHARED_SNAP_ARG", "@icontract.ensure(lambda result: True)"], "ValueError"),
+    ("dup-same-object-next-to-each-ensure", ["@SHARED_SNAP_ARG", "@icontract.ensure(lambda result: True)", "@SHARED_SNAP_ARG",
+                                             "@icontract.ensure(lambda OLD: True)"], "ValueError"),
+    ("ok-shared-object-once", ["@SHARED_SNAP_ARG", "@icontract.ensure(lambda OLD: OLD.a == 1)"], None),
     ("unnamed-zero-params", ["@icontract.snapshot(lambda: 1)", "@icontract.ensure(lambda result: True)"], "ValueError"),
     ("unnamed-two-params", ["@icontract.snapshot(lambda ARG, y=1: 1)", "@icontract.ensure(lambda result: True)"], "ValueError"),
     ("no-postcondition-at-all", ["@icontract.snapshot(lambda ARG: 1)"], "ValueError"),
@@ -278,7 +284,7 @@ class K_old_{n}(icontract.DBC):
 
 
 def run_misuse(w) -> None:
-    src = ["import icontract\n"]
+    src = ["import icontract\n\nSHARED_SNAP_x = icontract.snapshot(lambda x: 1, name='a')\nSHARED_SNAP_self = icontract.snapshot(lambda self: 1, name='a')\n\n"]
     expect = {}  # type: Dict[str, Any]
     n = 0
     for kind in KIND_WRAP:
